@@ -18,11 +18,22 @@ Require Import DS.Base DS.Cond DS.CondSpec.
 Require DSG.GenTruth.
 Require Import DSG.GenCondFn.
 
+Lemma is_nil_eqb (x : list N) : (match x with [] => true | _ :: _ => false end) = str_eqb x [].
+Proof. destruct x; reflexivity. Qed.
+
 Ltac str_atoms :=
+  (* `s.is_empty()` is translated to a match: the same test as `s == ""` *)
   repeat match goal with
-         | |- context [str_eqb ?a ?b] => let x := fresh "atom" in generalize (str_eqb a b); intros x
+         | |- context [match ?x with [] => true | _ :: _ => false end] => rewrite (is_nil_eqb x)
          end;
-  repeat match goal with x : bool |- _ => destruct x end; reflexivity.
+  (* decide every string comparison that occurs by its specification: a positive answer substitutes the compared text, so
+     every other comparison computes; negative answers are kept as hypotheses (semantic, not syntactic, agreement) *)
+  repeat match goal with
+         | |- context [str_eqb ?a ?b] =>
+           let E := fresh "E" in
+           destruct (str_eqb_spec a b) as [E|E]; [try (rewrite E in *; clear E)|]; cbn in *
+         end;
+  try reflexivity; try congruence; try contradiction.
 
 Theorem gen_is_true_eq : gen_cond_understood = true ->
   forall v, gen_is_true v = is_true v.
